@@ -125,7 +125,17 @@ func gen(r *vc.Rand, entry int) tcase {
 		}
 	}
 	if entry == eWS {
-		for _, k := range append([]string{"bad key", "x-q"}, keyPool[:5]...) {
+		// query metadata keys: the pool's names, and spellings that only Unicode case mapping (ToLower / ToUpper / EqualFold)
+		// turns into a pool name: U+212A KELVIN SIGN -> k, U+017F LONG S -> s, U+0130 -> i
+		qkeys := append([]string{"bad key", "x-q"}, keyPool[:5]...)
+		for _, k := range keyPool {
+			for _, f := range [][2]string{{"k", "\u212a"}, {"s", "\u017f"}, {"i", "\u0130"}, {"K", "\u212a"}, {"S", "\u017f"}, {"I", "\u0130"}} {
+				if strings.Contains(k, f[0]) {
+					qkeys = append(qkeys, strings.Replace(k, f[0], f[1], 1))
+				}
+			}
+		}
+		for _, k := range qkeys {
 			if r.Chance(40) {
 				tc.query = append(tc.query, [2]string{k, r.Pick([]string{"q1", "q 2", "bad\x01", "ünï"})})
 			}
